@@ -32,6 +32,7 @@ type TaskSpec struct {
 	// optional fault plans of this instance (the solo reference runs with the same plan)
 	SinkFault *SinkFault `json:"sink_fault,omitempty"`
 	SrcFault  *SrcFault  `json:"src_fault,omitempty"`
+	SinkKind  string     `json:"sink_kind,omitempty"`
 }
 
 // Segment is a run-length piece of an executed schedule.
@@ -73,6 +74,7 @@ type Case struct {
 	W *WriterSpec `json:"writer,omitempty"`
 
 	SinkFault *SinkFault `json:"sink_fault,omitempty"` // C09
+	SinkKind  string     `json:"sink_kind,omitempty"`  // w (io.Writer only) | wx (+ StringWriter, ByteWriter, ReaderFrom)
 
 	SourceKind string    `json:"source_kind,omitempty"` // rs | rsb
 	Frag       *Frag     `json:"frag,omitempty"`        // C08
